@@ -427,6 +427,68 @@ def r4_transforms(ck, cx, builds):
                       message='%s framer doubles delimiter bytes in the payload when sending but never removes the doubling when receiving: a payload containing 0x7B/0x7D is not delivered' % kind)
 
 
+def r7_struct_codes_and_minimum(ck, cx):
+    ck.rule('R7', 'the receive side of a framer unpacks header fields with struct codes the send side packs them with (no signed reading of an unsigned field); the smallest PDU (a bare function code) is a complete frame')
+    n = 0
+    for kind, cqn in FRAMER_CLASSES.items():
+        cls = cx.idx.cls(cqn)
+        packs, unpacks = set(), []
+        for c in cx.idx.mro(cls):
+            if not c.qn.startswith('pymodbus.framer'):
+                continue
+            for m in c.methods.values():
+                for nd in ast.walk(m.node):
+                    if isinstance(nd, ast.Call) and callee_name(nd) in ('pack', 'unpack') and nd.args:
+                        fmt = cx.ce.try_ev(nd.args[0], m.mod, cls)
+                        if not isinstance(fmt, str):
+                            continue
+                        codes = [ch for ch in fmt if ch.isalpha()]
+                        if callee_name(nd) == 'pack':
+                            packs |= set(codes)
+                        else:
+                            unpacks.append((m, nd, codes))
+        for m, nd, codes in unpacks:
+            n += 1
+            bad = [ch for ch in codes if ch not in packs and ch.swapcase() in packs] if packs else []
+            ck.ob('R7', m.qn, 'unpack codes %s are codes the framer packs with' % ''.join(codes), not bad, detail='signedness-mismatch %s %s' % (kind, ''.join(bad)),
+                  loc=cx.floc(m, nd), message='%s framer reads a header field with struct code %r while it is written with %r: values with the top bit set '
+                                             '(unit ids >= 128, transaction ids >= 0x8000) come back negative' % (kind, ''.join(bad), ''.join(b_.swapcase() for b_ in bad)))
+    # TLS: the ADU is the bare PDU, whose smallest form is one byte
+    tls = cx.idx.cls(FRAMER_CLASSES['tls'])
+    cf = cx.method(tls, 'checkFrame')
+    from ..sym import constraints as _cons
+    nz = cx.nz(cf.mod, tls)
+    env = {k: ast.Constant(value=v) for k, v in instance_constants(cx, tls).items() if isinstance(v, int)}
+    lows = []
+    for p in cx.enum(cf, tls, max_depth=1):
+        annotate(p, heap=False)
+        r = ret_expr(p)
+        if r is None or is_const(r, False):
+            continue
+        lo = 0
+        known = True
+        for ev in p.ev:
+            if ev.kind == 'cond':
+                for c in _cons(ev._sub, ev.a, nz, env):
+                    if c[0] == 'ge' and set(k for k in c[1].t if k != ()) == {('len(self._buffer)',)} and c[1].t[('len(self._buffer)',)] == 1:
+                        lo = max(lo, -c[1].t.get((), 0))
+        if isinstance(r, ast.Compare) or not is_const(r, True):
+            try:
+                for c in _cons(r, True, nz, env):
+                    if c[0] == 'ge' and set(k for k in c[1].t if k != ()) == {('len(self._buffer)',)} and c[1].t[('len(self._buffer)',)] == 1:
+                        lo = max(lo, -c[1].t.get((), 0))
+            except Exception:
+                known = False
+        if known:
+            lows.append(lo)
+    n += len(lows)
+    ck.ob('R7', cf.qn, 'a TLS packet of one byte (function code only) is a complete frame', bool(lows) and all(l <= 1 for l in lows),
+          detail='tls-minimum-frame %s' % sorted(set(lows)), loc=cx.floc(cf),
+          message='tls checkFrame needs at least %s buffered bytes: requests without data (Read Exception Status, Get Comm Event Counter/Log, Report Slave ID) are never delivered'
+                  % sorted(set(lows)))
+    ck.floor('R7', n, 6, 'unpack sites / TLS acceptance paths')
+
+
 def r6_header_keys_defined(ck, cx):
     """A fresh receiver called with its default options (what `processIncomingPacket(data, callback, unit)` means) must be able
     to deliver: on those paths every key it reads from its header dictionary is one the framer itself defines somewhere."""
@@ -470,6 +532,7 @@ def run(ck, tier):
     ck.guard(r3_rtu_sizes, ck, cx)
     ck.guard(r4_transforms, ck, cx, builds)
     ck.guard(r6_header_keys_defined, ck, cx)
+    ck.guard(r7_struct_codes_and_minimum, ck, cx)
     ck.rule('R5', 'checksum comparison shape and CRC constants (shared with C07 R3)')
     sub = type(ck)(ck.pid, ck.tier)
     r3_shape(sub, cx)
